@@ -43,22 +43,38 @@ End AtSave.
 (* the state model of SaveState.v agrees with the document Save.save returns *)
 Definition state_of (d : doc) : sstate := {| s_max_id := d_max_id d; s_trailer := d_trailer d |}.
 
-Lemma save_table_state d :
-  Save.so_status (Save.save Save.XTable d) = Save.SaveOk ->
-  state_of (Save.so_doc (Save.save Save.XTable d)) = mutate_table (state_of d).
+(* Save.raise_max_id (the first statement of save_internal since /repo 19ab1a6) is SaveState.raise_max_id *)
+Definition top_of (d : doc) : option N := Some (Save.last_object_number (d_objects d)).
+Lemma state_of_raise d : state_of (Save.raise_max_id d) = raise_max_id (top_of d) (state_of d).
+Proof. reflexivity. Qed.
+
+Lemma save_core_table_state d :
+  Save.so_status (Save.save_core Save.XTable d) = Save.SaveOk ->
+  state_of (Save.so_doc (Save.save_core Save.XTable d)) = mutate_table (state_of d).
 Proof.
-  unfold Save.save. destruct (Save.u32_top <=? d_max_id d); [discriminate|].
+  unfold Save.save_core. destruct (Save.u32_top <=? d_max_id d); [discriminate|].
   destruct (negb (Save.binary_mark_ok (d_binary_mark d))); [discriminate|].
   destruct (Save.save_body d) as [[body xs] x]. intros _. reflexivity.
 Qed.
 
-Lemma save_stream_max_id d ids :
-  Save.so_status (Save.save Save.XStream d) = Save.SaveOk ->
-  s_max_id (state_of (Save.so_doc (Save.save Save.XStream d))) = s_max_id (mutate_stream ids (state_of d)).
+Lemma save_table_state d :
+  Save.so_status (Save.save Save.XTable d) = Save.SaveOk ->
+  state_of (Save.so_doc (Save.save Save.XTable d)) = mutate_table (raise_max_id (top_of d) (state_of d)).
+Proof. unfold Save.save. intro H. rewrite (save_core_table_state _ H), state_of_raise. reflexivity. Qed.
+
+Lemma save_core_stream_max_id d ids :
+  Save.so_status (Save.save_core Save.XStream d) = Save.SaveOk ->
+  s_max_id (state_of (Save.so_doc (Save.save_core Save.XStream d))) = s_max_id (mutate_stream ids (state_of d)).
 Proof.
-  unfold Save.save. destruct (Save.u32_top <=? d_max_id d); [discriminate|].
+  unfold Save.save_core. destruct (Save.u32_top <=? d_max_id d); [discriminate|].
   destruct (negb (Save.binary_mark_ok (d_binary_mark d))); [discriminate|].
   destruct (Save.save_body d) as [[body xs] x].
   destruct (Save.u32_top <=? d_max_id d + 1); [discriminate|].
   destruct (Save.xstream_parts d x (xs mod Save.u32_mod)) as [[t c] x']. intros _. reflexivity.
 Qed.
+
+Lemma save_stream_max_id d ids :
+  Save.so_status (Save.save Save.XStream d) = Save.SaveOk ->
+  s_max_id (state_of (Save.so_doc (Save.save Save.XStream d))) =
+  s_max_id (mutate_stream ids (raise_max_id (top_of d) (state_of d))).
+Proof. unfold Save.save. intro H. rewrite (save_core_stream_max_id _ ids H), state_of_raise. reflexivity. Qed.
